@@ -146,6 +146,67 @@ func c16(x *ctx) {
 			}
 		}
 	}
+	// --- nested namespaces: a class inside 1-3 nested modules whose unqualified superclass (or included
+	// module) is defined at each enclosing level (0 = top level); optionally a same-named decoy at top level
+	// that lacks the method. The call is written inside a method of another class of the innermost namespace.
+	nsNames := []string{"Nsa", "Nsb", "Nsc"}
+	for nd := 1; nd <= 3; nd++ {
+		for bl := 0; bl <= nd; bl++ {
+			for _, kind := range []string{"superclass", "include"} {
+				for _, decoy := range []bool{false, true} {
+					if decoy && bl == 0 {
+						continue
+					}
+					for _, call := range []string{"defined", "decoy-only"} {
+						if call == "decoy-only" && !decoy {
+							continue
+						}
+						var sb strings.Builder
+						pad := func(n int) string { return strings.Repeat("  ", n) }
+						baseDef := func(ind int) {
+							if kind == "superclass" {
+								sb.WriteString(pad(ind) + "class Pbase\n" + pad(ind+1) + "def target\n" + pad(ind+2) + "1.5\n" + pad(ind+1) + "end\n" + pad(ind) + "end\n")
+							} else {
+								sb.WriteString(pad(ind) + "module Pbase\n" + pad(ind+1) + "def target\n" + pad(ind+2) + "1.5\n" + pad(ind+1) + "end\n" + pad(ind) + "end\n")
+							}
+						}
+						if decoy {
+							kw := map[string]string{"superclass": "class", "include": "module"}[kind]
+							sb.WriteString(kw + " Pbase\n  def decoy_only\n    :sym\n  end\nend\n")
+						}
+						if bl == 0 {
+							baseDef(0)
+						}
+						for lv := 1; lv <= nd; lv++ {
+							sb.WriteString(pad(lv-1) + "module " + nsNames[lv-1] + "\n")
+							if bl == lv {
+								baseDef(lv)
+							}
+						}
+						if kind == "superclass" {
+							sb.WriteString(pad(nd) + "class Dsub < Pbase\n" + pad(nd) + "end\n")
+						} else {
+							sb.WriteString(pad(nd) + "class Dsub\n" + pad(nd+1) + "include Pbase\n" + pad(nd) + "end\n")
+						}
+						meth := map[string]string{"defined": "target", "decoy-only": "decoy_only"}[call]
+						sb.WriteString(pad(nd) + "class Zuser\n" + pad(nd+1) + "def go\n" + pad(nd+2) + "dbtp Dsub.new." + meth + "\n")
+						row := lines(sb.String())
+						sb.WriteString(pad(nd+1) + "end\n" + pad(nd) + "end\n")
+						for lv := nd; lv >= 1; lv-- {
+							sb.WriteString(pad(lv-1) + "end\n")
+						}
+						sb.WriteString(strings.Join(nsNames[:nd], "::") + "::Zuser.new.go\n")
+						tag := fmt.Sprintf("names=0:ns-depth=%d:base-level=%d:%s:decoy=%v:%s", nd, bl, kind, decoy, call)
+						if call == "defined" {
+							add(sb.String(), row, false, "Float", "namespaced-ancestor:"+tag)
+						} else {
+							add(sb.String(), row, true, "", "namespaced-ancestor:"+tag)
+						}
+					}
+				}
+			}
+		}
+	}
 	cases := make([]*engine.Case, len(progs))
 	for i, p := range progs {
 		cfg := "core"
@@ -183,6 +244,9 @@ func c16(x *ctx) {
 			}
 		}
 		hasProbe := strings.Contains(lastStmt(p.src), "dbtp ") && p.row == strings.Count(p.src, "\n")
+		if sl := strings.Split(p.src, "\n"); strings.HasPrefix(p.feat, "namespaced-ancestor:") && p.row >= 1 && p.row <= len(sl) {
+			hasProbe = strings.Contains(sl[p.row-1], "dbtp ")
+		}
 		nDiag := len(onRow)
 		probeT := ""
 		if hasProbe && len(onRow) > 0 {
